@@ -64,6 +64,7 @@ class Interceptor(object):
         self.hard_exit = hard_exit
         self.dead = False
         self.saved = []
+        self.owner = os.getpid()
 
     def name(self, path):
         path = os.fspath(path) if not isinstance(path, (str, bytes)) else path
@@ -75,7 +76,7 @@ class Interceptor(object):
     def _gate(self, op):
         """Returns True when the operation is to be performed."""
         if self.kill_at is not None and len(self.ops) >= self.kill_at:
-            if self.hard_exit:         # the fork child dies here, for real
+            if self.hard_exit and os.getpid() != self.owner:         # the fork child dies here, for real
                 if self.hard_exit in ("SIGKILL", "SIGTERM", "SIGABRT"):
                     if self.hard_exit != "SIGKILL":
                         signal.signal(getattr(signal, self.hard_exit), signal.SIG_DFL)
@@ -278,6 +279,9 @@ class Scenario(object):
                     s = sermod.Serializer(fn, 16, False, None, None, None)
                 s.serialize(self.old_data(), 3)
             assert os.path.exists(fn)
+        if self.name.endswith("-stale-tmp"):
+            with open(fn + ".tmp", "wb") as f:      # left over by a writer of an earlier incarnation (D84)
+                f.write(b"left over by an earlier writer")
         return fn
 
     def execute(self, sermod, fn, kill_at, death="exit"):
@@ -346,6 +350,7 @@ def scenarios(tier):
     for old in (False, True):
         out.append(Scenario("inline", "serialize", old))
         out.append(Scenario("inline-fail", "serialize", old, bad=True))
+        out.append(Scenario("inline-stale-tmp", "serialize", old))
         out.append(Scenario("user", "serialize", old, user=True))
         out.append(Scenario("user-fail", "serialize", old, user=True, fail_after=1))
         out.append(Scenario("receive", "receive", old, chunk=24))
@@ -355,6 +360,7 @@ def scenarios(tier):
         out.append(Scenario("receive-own-dump-between", "receive", old, chunk=32))
         if hasattr(os, "fork"):
             out.append(Scenario("fork", "serialize", old, fork=True))
+            out.append(Scenario("fork-stale-tmp", "serialize", old, fork=True))
     out.append(Scenario("inline-big", "serialize", True, big=True))
     if tier != "quick":
         for n in (0, 1, 50, 500):
@@ -580,7 +586,7 @@ def run(ctx):
     import ctypes
     missing = [k for k in ("absent", "old", "new") if not cov["classes"].get(k)]
     missing += [k for k in ("rename tmp->dump over existing dump", "rename tmp->dump creating first dump",
-                            "rename incoming tmp1->dump", "remove tmp1", "openW tmp", "openW tmp1", "write")
+                            "rename incoming tmp1->dump", "remove tmp1", "remove tmp", "openW tmp", "openW tmp1", "write")
                 if not cov["primitives"].get(k)]
     if not cov["scenarios"].get("receive-own-dump-between") or not cov["classes"].get("own"):
         missing.append("own dump between the chunks of an incoming snapshot")
